@@ -121,6 +121,10 @@ func vh02Sess(o *vhOut, r *rand.Rand, path string, msize uint32, stream []byte, 
 	o.Emit(res)
 }
 
+// vh02SessCuts: when non-nil the session's stream is written in segments ending at these offsets, with a
+// pause after each (so that one recvmsg / Read returns exactly that segment); nil = random pieces, no pause
+var vh02SessCuts []int
+
 func vh02SessOnce(r *rand.Rand, path string, msize uint32, stream []byte) vh02Session {
 	a, b, err := vh02SocketPair()
 	if err != nil {
@@ -155,8 +159,18 @@ func vh02SessOnce(r *rand.Rand, path string, msize uint32, stream []byte) vh02Se
 	wg.Add(1)
 	go func() {
 		defer wg.Done()
+		cuts := vh02SessCuts
 		for off := 0; off < len(stream); {
 			n := 1 + r.Intn(len(stream))
+			if len(cuts) > 0 { // gated: write up to the next cut position, then pause so that the segment is received alone
+				n = cuts[0] - off
+				cuts = cuts[1:]
+				if n <= 0 {
+					continue
+				}
+			} else if vh02SessCuts != nil {
+				n = len(stream) - off
+			}
 			if off+n > len(stream) {
 				n = len(stream) - off
 			}
@@ -164,6 +178,9 @@ func vh02SessOnce(r *rand.Rand, path string, msize uint32, stream []byte) vh02Se
 				break
 			}
 			off += n
+			if vh02SessCuts != nil {
+				time.Sleep(3 * time.Millisecond)
+			}
 		}
 		a.CloseWrite()
 	}()
@@ -658,6 +675,26 @@ func TestVerifC02(t *testing.T) {
 		vh02Inflight("session "+path, ms, stream)
 		vh02Sess(o, r, path, ms, stream, true)
 		vh02InflightDone()
+	}
+	// 8b. live sessions over a real socket pair with a payload-carrying frame split at EVERY position (inside the
+	// header, the fixed part, at the fixed/payload boundary and -- the case one recvmsg fills the fixed-part vector
+	// and part of the payload vector -- inside the payload), a good frame behind it: both must be answered
+	{
+		tw := vh02Encode(901, &twrite{fid: 1, Offset: 0, Data: []byte{1, 2, 3, 4, 5, 6, 7, 8, 9, 10, 11, 12}})
+		stream := append(append([]byte{}, tw...), vh02Encode(902, &tclunk{fid: 1})...)
+		for cut := 1; cut < len(tw); cut++ {
+			for _, path := range []string{"vec", "generic"} {
+				if path == "generic" && cut%4 != 0 {
+					continue
+				}
+				vh02SessCuts = []int{cut}
+				vh02Flush(o)
+				vh02Inflight("session "+path+" gated cut="+strconv.Itoa(cut), 8192, stream)
+				vh02Sess(o, r, path, 8192, stream, true)
+				vh02InflightDone()
+			}
+		}
+		vh02SessCuts = nil
 	}
 	// 9. fuzz-style loop (thorough: minutes; quick: seconds)
 	secs := vh02FuzzSeconds(4)
